@@ -14,6 +14,12 @@ Model driver for C11. Line protocol (single spaces; "-" = empty list / empty str
       log = processed answers "svc.attempt.code" in processing order, '|', uploads still in flight
       at the return (sorted by service)
 
+  seq <k> <the 7 fields of a put> x k     -- k puts, one after the other, on ONE client; the puts
+      list the same services (uuid, type, writable) and use raw/puthb/putb; scripts, want, retries,
+      data and picks are per put. The client keeps no state between calls, so the model answer is
+      the k independent answers.
+    -> <answer 1> / <answer 2> / ...
+
   upl <e | <code>[H<hex>][B<hex>][X]>      X = the body fails with a non-EOF error after its bytes
     -> <statusCode> <replicasStored> <responsehex, only for 200>
 
@@ -190,13 +196,39 @@ def parseLoadSvc (s : String) : Option Svc :=
     | none => none
   | _ => none
 
-def step (line : String) : String :=
-  match fields line with
-  | ["put", entry, want, retries, hash, datahex, svcs, picks] =>
+def putOf : List String → String
+  | [entry, want, retries, hash, datahex, svcs, picks] =>
     match want.toNat?, retries.toNat?, (if datahex == "-" then some ByteArray.empty else bytesOfHex? datahex),
           (splitOr ";" svcs).mapM parseSvc, parseNats picks with
     | some w, some r, some d, some ss, some ps => runPut entry w r hash (bytesToNats d) ss ps
     | _, _, _, _, _ => "bad-op"
+  | _ => "bad-op"
+
+def chunks7 : List String → Option (List (List String))
+  | [] => some []
+  | a :: b :: c :: d :: e :: f :: g :: rest => (chunks7 rest).map (fun t => [a, b, c, d, e, f, g] :: t)
+  | _ => none
+
+/-- uuid:type:writable of every service of a put's service field (scripts dropped) -/
+def svcKey (svcs : String) : List (List String) :=
+  (svcs.splitOn ";").map fun s => (s.splitOn ":").take 3
+
+def seqOf (k : String) (rest : List String) : String :=
+  match k.toNat?, chunks7 rest with
+  | some n, some puts =>
+    if n == 0 || puts.length != n then "bad-op" else
+    let key := (puts.head?.bind (·[5]?)).map svcKey
+    let okShape := puts.all fun p =>
+      (p[5]?.map svcKey) == key && !((p[0]?.getD "").startsWith "puthr:")
+    if !okShape then "bad-op" else
+    let outs := puts.map putOf
+    if outs.any (· == "bad-op") then "bad-op" else " / ".intercalate outs
+  | _, _ => "bad-op"
+
+def step (line : String) : String :=
+  match fields line with
+  | "put" :: rest => if rest.length == 7 then putOf rest else "bad-op"
+  | "seq" :: k :: rest => seqOf k rest
   | ["upl", t] =>
     match parseOut t with
     | some .err => let u := upload .connErr; s!"{u.code} {u.rep} -"
